@@ -1,0 +1,83 @@
+//go:build verif
+
+// Contracts for the generated bindings of this package (property C05), derived mechanically by
+// /verif/tools/gencontracts.py from the generated source; checked by /verif/govc. Comments only.
+
+package propertyf
+
+//@ func (*StatPropMsgHead).ResetDefault
+//@   requires st != nil
+//@   modifies *st
+//@   safety [C05]
+//
+//@ func (*StatPropMsgHead).ReadFrom
+//@   requires st != nil && validR(readBuf)
+//@   let p0 = readBuf.buf.i
+//@   let allocbudget = 256 * len(readBuf.buf.src)
+//@   modifies *st, readBuf.buf.i, readBuf.depth
+//@   allocates
+//@   ensures [C05] readBuf.buf.i >= p0
+//@   ensures [C05] validR(readBuf)
+//@   safety [C05]
+//
+//@ func (*StatPropMsgHead).ReadBlock
+//@   requires st != nil && validR(readBuf)
+//@   let p0 = readBuf.buf.i
+//@   let allocbudget = 256 * len(readBuf.buf.src)
+//@   modifies *st, readBuf.buf.i, readBuf.depth
+//@   allocates
+//@   ensures [C05] readBuf.buf.i >= p0
+//@   ensures [C05] validR(readBuf)
+//@   safety [C05]
+//
+//@ func (*StatPropInfo).ResetDefault
+//@   requires st != nil
+//@   modifies *st
+//@   safety [C05]
+//
+//@ func (*StatPropInfo).ReadFrom
+//@   requires st != nil && validR(readBuf)
+//@   let p0 = readBuf.buf.i
+//@   let allocbudget = 256 * len(readBuf.buf.src)
+//@   modifies *st, readBuf.buf.i, readBuf.depth
+//@   allocates
+//@   ensures [C05] readBuf.buf.i >= p0
+//@   ensures [C05] validR(readBuf)
+//@   safety [C05]
+//
+//@ func (*StatPropInfo).ReadBlock
+//@   requires st != nil && validR(readBuf)
+//@   let p0 = readBuf.buf.i
+//@   let allocbudget = 256 * len(readBuf.buf.src)
+//@   modifies *st, readBuf.buf.i, readBuf.depth
+//@   allocates
+//@   ensures [C05] readBuf.buf.i >= p0
+//@   ensures [C05] validR(readBuf)
+//@   safety [C05]
+//
+//@ func (*StatPropMsgBody).ResetDefault
+//@   requires st != nil
+//@   modifies *st
+//@   safety [C05]
+//
+//@ func (*StatPropMsgBody).ReadFrom
+//@   requires st != nil && validR(readBuf)
+//@   let p0 = readBuf.buf.i
+//@   let allocbudget = 256 * len(readBuf.buf.src)
+//@   modifies *st, readBuf.buf.i, readBuf.depth
+//@   allocates
+//@   ensures [C05] readBuf.buf.i >= p0
+//@   ensures [C05] validR(readBuf)
+//@   loop 0 modifies elems(st.VInfo), readBuf.buf.i, readBuf.depth
+//@   loop 0 invariant [C05] validR(readBuf) && readBuf.buf.i >= p0 && st != nil && len(st.VInfo) == length
+//@   safety [C05]
+//
+//@ func (*StatPropMsgBody).ReadBlock
+//@   requires st != nil && validR(readBuf)
+//@   let p0 = readBuf.buf.i
+//@   let allocbudget = 256 * len(readBuf.buf.src)
+//@   modifies *st, readBuf.buf.i, readBuf.depth
+//@   allocates
+//@   ensures [C05] readBuf.buf.i >= p0
+//@   ensures [C05] validR(readBuf)
+//@   safety [C05]
